@@ -1157,6 +1157,91 @@ theorem wraps_without_check : 256 % 256 = 0 ∧ 261 % 256 = 5 := by decide
 end ArpAddrs
 
 
+/-! ## the overhead of an IPv6 extension chain built from in-range headers is at most 9228 bytes,
+    so `e.headerLen ≤ 65535` (hypothesis of `v6_value_type_in_domain`) holds for every chain the
+    public API can build -/
+namespace Ipv6ExtsLen
+
+def optWF {α : Type} (p : α → Prop) : Option α → Prop
+  | none => True
+  | some a => p a
+
+/-- every present header is in range -/
+def WF (e : Ipv6Exts) : Prop :=
+  optWF Ipv6RawExtHeader.WF e.hopByHop ∧ optWF Ipv6RawExtHeader.WF e.destOpts ∧
+  optWF (fun rf : Ipv6RawExtHeader × Option Ipv6RawExtHeader => rf.1.WF ∧ optWF Ipv6RawExtHeader.WF rf.2) e.routing ∧
+  optWF IpAuthHeader.WF e.auth
+
+theorem rawExt_headerLen_le (h : Ipv6RawExtHeader) (wf : h.WF) : h.headerLen ≤ 2048 := by
+  rw [Lemmas.CodecNet.RawExt.headerLen_eq h wf]; have := wf.2.2.1; omega
+
+theorem auth_headerLen_le (h : IpAuthHeader) (wf : h.WF) : h.headerLen ≤ 1028 := by
+  rw [Lemmas.CodecNet.Auth.headerLen_eq h wf]; have := wf.2.2.2.1; omega
+
+theorem headerLen_le (e : Ipv6Exts) (wf : WF e) : e.headerLen ≤ 9228 := by
+  obtain ⟨hbh, dst, rt, frag, auth⟩ := e
+  obtain ⟨w1, w2, w3, w4⟩ := wf
+  have b1 : (match hbh with | some h => h.headerLen | none => 0) ≤ 2048 := by
+    cases hbh with
+    | none => simp
+    | some h => exact rawExt_headerLen_le h w1
+  have b2 : (match dst with | some h => h.headerLen | none => 0) ≤ 2048 := by
+    cases dst with
+    | none => simp
+    | some h => exact rawExt_headerLen_le h w2
+  have b3 : (match rt with
+      | some (r, f) => r.headerLen + (match f with | some h => h.headerLen | none => 0)
+      | none => 0) ≤ 4096 := by
+    cases rt with
+    | none => simp
+    | some rf =>
+      obtain ⟨r, f⟩ := rf
+      have := rawExt_headerLen_le r w3.1
+      cases f with
+      | none => simp; omega
+      | some h => have := rawExt_headerLen_le h w3.2; simp; omega
+  have b4 : (match frag with | some h => h.headerLen | none => 0) ≤ 8 := by
+    cases frag with
+    | none => simp
+    | some h => simp [Ipv6FragmentHeader.headerLen]
+  have b5 : (match auth with | some h => h.headerLen | none => 0) ≤ 1028 := by
+    cases auth with
+    | none => simp
+    | some h => exact auth_headerLen_le h w4
+  unfold Ipv6Exts.headerLen
+  rcases rt with _ | ⟨r, _ | f⟩ <;> cases hbh <;> cases dst <;> cases frag <;> cases auth <;> simp_all <;> omega
+
+end Ipv6ExtsLen
+
+/-- `v6_value_type_in_domain` for every chain of in-range extension headers -/
+theorem IpHeadersSetPayloadLen.v6_value_type_in_domain_wf (h : Ipv6Header) (e : Ipv6Exts) (n : Nat)
+    (err : TooBig) (hn : n ≤ 2 ^ 32) (we : Ipv6ExtsLen.WF e)
+    (hr : (ipHeadersSetPayloadLen (.v6 h e) n).1 = .error err) :
+    err = { actual := n + e.headerLen, maxAllowed := 65535, vt := .ipv6PayloadLength } ∧
+      (ipHeadersSetPayloadLen (.v6 h e) n).2 = .v6 h e :=
+  IpHeadersSetPayloadLen.v6_value_type_in_domain h e n err hn
+    (by have := Ipv6ExtsLen.headerLen_le e we; omega) hr
+
+/-! ## ICMPv6 checksum field -/
+
+/-- the checksum field of the serialised ICMPv6 header is the stored checksum -/
+theorem icmp6_checksum_field (h : Codec.Icmp6) (hck : h.ck < 65536) : be16 h.toBytes 2 = h.ck := by
+  unfold Codec.Icmp6.toBytes
+  cases h.ty <;> simp [Codec.Icmp6.returnTrivial, Codec.Icmp6.return4u8, enc16, be16, bAt] <;> omega
+
+theorem icmp6_with_checksum_field (t : Codec.Icmp6Type) (src dst payload : Bytes) (h : Codec.Icmp6)
+    (hok : icmp6WithChecksum t src dst payload = .ok h) :
+    icmp6CalcChecksum t src dst payload = .ok (be16 h.toBytes 2) := by
+  have hh := (Icmp6CalcChecksum.with_checksum_iff t src dst payload).2 h hok
+  have hlt : h.ck < 65536 := by
+    have := hh.2
+    unfold icmp6CalcChecksum at this
+    simp only at this
+    split at this
+    · cases this
+    · injection this with this; rw [← this]; exact swap16_lt _
+  rw [icmp6_checksum_field h hlt]; exact hh.2
+
 /-! ## Non-vacuity: concrete values at the limit (accepted, encoded exactly) and one above
     (rejected with the stated values), and the hypotheses of the theorems are satisfiable. -/
 section Examples
@@ -1191,6 +1276,8 @@ def exExts : Ipv6Exts :=
   { hopByHop := some { nextHeader := 60, payload := [1, 2, 3, 4, 5, 6] }, destOpts := none, routing := none,
     fragment := none, auth := some exAuth }
 example : exExts.headerLen = 28 := by rfl
+example : Ipv6ExtsLen.WF exExts :=
+  ⟨by show Ipv6RawExtHeader.WF _; decide, trivial, trivial, by show IpAuthHeader.WF _; decide⟩
 example : (ipHeadersSetPayloadLen (.v6 Ipv6Header.sampleMax exExts) 65507).1 = .ok () := by rfl
 example : (ipHeadersSetPayloadLen (.v6 Ipv6Header.sampleMax exExts) 65508).1 =
     .error { actual := 65536, maxAllowed := 65535, vt := .ipv6PayloadLength } := by rfl
